@@ -38,6 +38,9 @@ pub enum Body {
     },
     Raw(Vec<u8>),
     Text(String),
+    /// Valid UTF-8 with multi-byte characters, optionally wrapped as a JSON string member of an
+    /// otherwise well-shaped document, optionally truncated at a byte position.
+    Unicode { text: String, as_json: bool, cut: Option<u16> },
 }
 
 #[derive(Clone, Debug, Serialize, Deserialize)]
@@ -209,6 +212,8 @@ impl Property for C18 {
                 .prop_map(|(height, extra, ws, reorder, keep_permille, array_len)| Body::Shaped { height, extra, ws, reorder, keep_permille, array_len }),
             2 => prop::collection::vec(any::<u8>(), 0..60).prop_map(Body::Raw),
             2 => "[ -~\\n\\t]{0,40}".prop_map(Body::Text),
+            3 => ("[ -~\u{e4}\u{f6}\u{fc}\u{20ac}\u{4e2d}\u{6587}\u{1d11e}\u{1f600}\\n]{0,220}", any::<bool>(), prop_oneof![2 => Just(None), 1 => (0u16..400).prop_map(Some)])
+                .prop_map(|(text, as_json, cut)| Body::Unicode { text, as_json, cut }),
             1 => prop_oneof![Just("+12".to_string()), Just(" 12".to_string()), Just("12\n".to_string()), Just("012".to_string()), Just("1e3".to_string()), Just("0x10".to_string()), Just("".to_string()), Just("18446744073709551616".to_string())].prop_map(Body::Text),
         ];
         (
@@ -230,13 +235,13 @@ impl Property for C18 {
         Some(("transform", fuzz_transform))
     }
     fn rule(&self) -> String {
-        "Every explorer endpoint's transform (11 endpoint configurations via the hook, plus the 10 exported transform_* query functions) x status (200, 201, 404, 500, 0, random) x arbitrary headers x bodies: grammar-generated JSON of the explorer's real shape with the height member as integer (0, small, realistic, u64::MAX, i64::MAX+1) / negative / float / 2^64*10 / string / null / bool / nested / missing, unrelated members at every level, four whitespace styles, member order, truncation; plain-number bodies incl. '+12', ' 12', '12\\n', '012', '1e3', ''; random bytes (invalid UTF-8). Oracle: no trap; no headers; same status; body in {empty, {\"height\":N}, {\"height\":null}} byte-exact; N only if an independent path lookup on the parsed body finds that non-negative integer, and then it must be reported; for status 200 the result is identical for variants of the same document that differ only in headers, whitespace, member order or unrelated members. Non-trivial: a syntactically valid body of the endpoint's shape with >= 1 perturbation; distinct = (endpoint, body) hashes.".into()
+        "Every explorer endpoint's transform (11 endpoint configurations via the hook, plus the 10 exported transform_* query functions) x status (200, 201, 404, 500, 0, random) x arbitrary headers x bodies: grammar-generated JSON of the explorer's real shape with the height member as integer (0, small, realistic, u64::MAX, i64::MAX+1) / negative / float / 2^64*10 / string / null / bool / nested / missing, unrelated members at every level, four whitespace styles, member order, truncation; plain-number bodies incl. '+12', ' 12', '12\\n', '012', '1e3', ''; random bytes (invalid UTF-8); valid UTF-8 of up to ~800 bytes mixing ASCII with 2-, 3- and 4-byte characters, raw or as a string member of a well-shaped document, optionally truncated at any byte. Oracle: no trap; no headers; same status; body in {empty, {\"height\":N}, {\"height\":null}} byte-exact; N only if an independent path lookup on the parsed body finds that non-negative integer, and then it must be reported; for status 200 the result is identical for variants of the same document that differ only in headers, whitespace, member order or unrelated members. Non-trivial: a syntactically valid body of the endpoint's shape with >= 1 perturbation; distinct = (endpoint, body) hashes.".into()
     }
     fn assumptions(&self) -> Vec<String> {
         vec!["for plain-number endpoints only bodies consisting solely of ASCII digits have a height every reading agrees on; other text may map to empty or to the canonical object".into()]
     }
     fn required_classes(&self, _tier: Tier) -> Vec<&'static str> {
-        vec!["valid_shape_perturbed", "height_extracted", "height_null", "empty_body_result", "non_200", "invalid_utf8_or_json", "metamorphic_pair_equal"]
+        vec!["valid_shape_perturbed", "height_extracted", "height_null", "empty_body_result", "non_200", "invalid_utf8_or_json", "metamorphic_pair_equal", "unicode_body_longer_than_100_bytes"]
     }
     fn run(&self, case: &Case18) -> Outcome {
         let mut out = Outcome::default();
@@ -255,6 +260,28 @@ impl Property for C18 {
             }
             Body::Raw(b) => (b.clone(), None),
             Body::Text(s) => (s.clone().into_bytes(), None),
+            Body::Unicode { text, as_json, cut } => {
+                let doc = if *as_json {
+                    let quoted = serde_json::to_string(text).unwrap();
+                    match kind {
+                        Kind::TopHeight => format!("{{\"note\":{quoted},\"height\":77}}"),
+                        Kind::DataBest => format!("{{\"data\":{{\"best_block_height\":77,\"note\":{quoted}}}}}"),
+                        Kind::ArrayHeight => format!("[{{\"height\":77,\"note\":{quoted}}}]"),
+                        Kind::Plain => text.clone(),
+                    }
+                } else {
+                    text.clone()
+                };
+                let mut b = doc.into_bytes();
+                if let Some(c) = cut {
+                    b.truncate(*c as usize);
+                }
+                out.class("unicode_body");
+                if b.len() > 100 && std::str::from_utf8(&b).is_ok() {
+                    out.class("unicode_body_longer_than_100_bytes");
+                }
+                (b, None)
+            }
         };
         out.checks += 1;
         let res = match call(name, case.status, &case.headers, &body) {
